@@ -147,6 +147,12 @@ def run_cases(seed, lo, hi, extra):
                 break
         else:
             st.failures.append({"prop": "C10", "sig": f"C10/reject-differs/{cs}", "detail": d, "output": out[:600], **desc})
+        if d is None and cfg["pretty_print"] and not cfg.get("text_tags") and not cfg["normalize"] & 2:
+            # under pretty_print the comparison above is modulo all white space; white space inside mixed content is not
+            # the pretty printer's to change
+            lost = xmlfmt.blank_lost(rj, l)
+            if lost:
+                st.failures.append({"prop": "C10", "sig": f"C10/reject-loses-white-space-in-mixed-content/{cs}", "detail": lost, "output": out[:600], **desc})
     return st
 
 
